@@ -134,9 +134,16 @@ let spec_query toks =
       let s = bytes_of_tok b in
       Printf.sprintf "spec=%s need=%d" (show_spec (uri_spec_query s)) (int_of_z (uri_query_need s))
   | _ -> failwith "spec_query args"
+(* spec_pq <path> <query> : Uri-Path / Uri-Query values of a split URI (none for an empty part) *)
+let spec_pq toks =
+  match toks with
+  | [p; q] ->
+      Printf.sprintf "path=%s query=%s" (show_spec (uri_spec_path_opts (bytes_of_tok p)))
+        (show_spec (uri_spec_query_opts (bytes_of_tok q)))
+  | _ -> failwith "spec_pq args"
 let spec_norm toks = show_optl (uri_norm (List.map bytes_of_tok toks))
 
 let () =
   register "upath" upath; register "uquery" uquery; register "upol" upol; register "uqol" uqol;
   register "ugetp" (uget false); register "ugetq" (uget true); register "uspl" uspl; register "uinto" uinto; register "ugetproxy" ugetproxy;
-  register "spec_path" spec_path; register "spec_query" spec_query; register "spec_norm" spec_norm
+  register "spec_path" spec_path; register "spec_query" spec_query; register "spec_norm" spec_norm; register "spec_pq" spec_pq
